@@ -409,5 +409,5 @@ func run(c Case) vt.Verdict {
 }
 
 func TestProp(t *testing.T) {
-	vt.Run(t, prop, vt.Sub[Case]{Prop: prop, Name: "selection", Gen: gen, Run: run, Classify: classify}.WithBudget(1500, 20000))
+	vt.Run(t, prop, vt.Sub[Case]{Prop: prop, Name: "selection", Gen: gen, Run: run, Classify: classify}.WithBudget(8000, 40000))
 }
